@@ -84,7 +84,7 @@ def _commute_plus(k):
     return {k}
 
 
-def rule_a(ctx, fn):
+def rule_a(ctx, fn, rule="C06.a-residue-class-enumeration"):
     """roles come from the enumeration's signature (data geometry, symmetries, min_segment, max_segment, subset, number of
     subsets - the public interface every consumer calls); loop variables are named by the range they run over"""
     defs = LocalDefs(fn)
@@ -109,7 +109,7 @@ def rule_a(ctx, fn):
         others = [m for m in lp.c[3].walk() if "v%d" % nd["d"] in {root_of_lvalue(e) for e in written_lvalues(m)}]
         ok_view = ok_view and not others
         view_role = roles[nd["d"]]
-    ctx.ob("C06.a-residue-class-enumeration", fn.qn, "view-loop", ok_view, fn.where(), det if ok_view else "view loop is not `min_view+subset_num; <= max_view; += num_subsets`: " + det)
+    ctx.ob(rule, fn.qn, "view-loop", ok_view, fn.where(), det if ok_view else "view loop is not `min_view+subset_num; <= max_view; += num_subsets`: " + det)
     seg = [(d, lp) for d, lp in loops if "$min_segment" in d["init"] or "$max_segment" in d["upper"]]
     okseg = False
     det = "no segment loop"
@@ -118,7 +118,7 @@ def rule_a(ctx, fn):
         okseg = ns["init"] == "$min_segment" and ns["upper"] == "$max_segment" and ns["step"] == "1"
         det = "for (segment = %s; segment <= %s; segment += %s)" % (ns["init"], ns["upper"], ns["step"])
         seg_role = roles[ns["d"]]
-    ctx.ob("C06.a-residue-class-enumeration", fn.qn, "segment-loop", okseg, fn.where(), det)
+    ctx.ob(rule, fn.qn, "segment-loop", okseg, fn.where(), det)
     # any other loop around the push_back must not multiply entries
     pushes = [c for c in fn.calls() if (c.callee or "").endswith("vector::push_back")]
     ok_push = len(pushes) == 1
@@ -154,7 +154,7 @@ def rule_a(ctx, fn):
             det = "listed element built from %s; guards %s" % (built, conds)
         elif ok_push:
             det = "each (view,segment) of the residue class that is_basic is listed once"
-    ctx.ob("C06.a-residue-class-enumeration", fn.qn, "listing", ok_push, fn.where(), det)
+    ctx.ob(rule, fn.qn, "listing", ok_push, fn.where(), det)
 
 
 def rule_b(ctx, fn, enum_fn):
